@@ -171,7 +171,29 @@ class C05Restart(C05):
         return [s + [("restart",)] for s in C05.seeds(self)[1:]]
 
 
+class C05Expired(C05):
+    """two sides used the mailbox, left without closing, it expired (rows pruned, in-memory object lingers);
+    then the old sides and new sides arrive"""
+
+    def configure(self, tier):
+        P, E = P_E()
+        X = "X"
+        self.cfg = dict(storage="memory")
+        binds = [[(X, "A")], [(X, "B")], [(X, "A"), (X, "C")], [(X, "B"), (X, "C"), (X, "D")], [(X, "C"), (X, "D")],
+                 [(X, "D")]]
+        self.driver = Driver(binds, names=(), mids=("m",), msgs=(("p", "00", "i1"),), kinds=("bind", "open", "add"),
+                             max_adds=1, max_conns=5 if tier == "quick" else 6)
+        self.depth = 6 if tier == "quick" else 8
+
+    def seeds(self):
+        P, E = P_E()
+        return [[("cbind", 0, "X", "A"), ("cbind", 1, "X", "B"), ("open", 0, "m"), ("open", 1, "m"),
+                 ("add", 0, "p", "00", "i1"), ("drop", 0), ("drop", 1), ("tick", E + 2 * P)]]
+
+
 def make_spec(tier, name=None):
+    if name == "c05-expired":
+        return C05Expired(tier)
     return C05Restart(tier) if name == "c05-restart" else C05(tier)
 
 
@@ -180,4 +202,6 @@ def run(pid, tier, seed, args):
     spec = make_spec(tier)
     spec2 = make_spec(tier, "c05-restart")
     b = 100 if tier == "quick" else 1200
-    return run_specs(pid, tier, seed, args, [("c05", spec, spec.depth, b), ("c05-restart", spec2, spec2.depth, b)], rule=RULE)
+    spec3 = make_spec(tier, "c05-expired")
+    return run_specs(pid, tier, seed, args, [("c05", spec, spec.depth, b), ("c05-restart", spec2, spec2.depth, b),
+                                             ("c05-expired", spec3, spec3.depth, b / 2)], rule=RULE)
